@@ -157,6 +157,42 @@ def run(rep, tier, seed):
         rep.compared += 1
         if r != got and len(rep.broken) < 5:
             rep.broken.append('correspondence C04/chain: table %r text %r model %r implementation %r' % (T, text, r, got))
+    # diverging continuations: two long names share the prefix "A op B" and continue differently (the first stored with a
+    # word that leads nowhere, the second with the first word of the known name "B C ..."); a text that follows the
+    # shared prefix and then spells "B C" must fall back to that name: the failure link of the later child matters
+    nfl = 400 if tier == 'thorough' else 100
+    reqs3, metas3 = [], []
+    for _ in range(nfl):
+        a, b, c, x, y, z = rng.sample(wpool, 6)
+        op = rng.choice(['or', 'and'])
+        nname = ' '.join([b, c] + ([y] if rng.random() < 0.3 else []))
+        long1 = ' '.join([a, op, b, x])
+        long2 = ' '.join([a, op] + nname.split() + [z, x])
+        entries = [('k-one', [long1], False), ('k-two', [long2], False), (nname.upper(), [], False), (a.upper(), [], False)]
+        if rng.random() < 0.3:
+            entries = [entries[1], entries[0]] + entries[2:]
+        T = entries
+        if not gen.table_ok(T):
+            continue
+        text = gen.vary_name(rng, ' '.join([a, op, nname]))
+        if ''.join(ch.lower() for ch in text) != text.lower():
+            continue
+        exp = [1 if op == 'and' else 2, [[0, [0, [enc_str(a.upper()), 0]]], [0, [0, [enc_str(nname.upper()), 0]]]]]
+        reqs3.append((4, [enc_table(T), 0, 0, 0, enc_str(text)]))
+        metas3.append((T, text, exp))
+    res3 = run_model(reqs3)
+    for (T, text, exp), r in zip(metas3, res3):
+        L = make_licensing(T)
+        got = parsing.parse_outcome(L, text)
+        rep.case((repr(T), text), nontrivial=True, sample={'table': T, 'text': text, 'expected': str(build_expr(exp))})
+        rep.count('diverging_continuations')
+        if got != [0, [exp]]:
+            rep.violations.append({'key': 'recognise', 'kind': 'text', 'table': T, 'text': text, 'expected': exp,
+                                   'what': 'a known name after the shared prefix of two longer names is not resolved: %r' % (got,)})
+            continue
+        rep.compared += 1
+        if r != got and len(rep.broken) < 5:
+            rep.broken.append('correspondence C04/fail-link: table %r text %r model %r implementation %r' % (T, text, r, got))
     # operator words inside longer words are not operators; longest wins, leftmost on a tie
     probes = [
         ([('mit', [], False)], 'orgpl and android', [1, [[0, [0, [enc_str('orgpl'), 0]]], [0, [0, [enc_str('android'), 0]]]]]),
